@@ -1,2 +1,125 @@
-(* Further case kinds are added here as more models are extracted. *)
-let run_case kind _args = "unknown-kind " ^ kind
+(* Socket-level scenarios: same case syntax as the Rust harness (`sock TYPE / op / op ...`). *)
+open BinNums
+module List = Stdlib.List
+module String = Stdlib.String
+
+let rec pos_of_int n : positive =
+  if n = 1 then Coq_xH
+  else if n land 1 = 0 then Coq_xO (pos_of_int (n lsr 1))
+  else Coq_xI (pos_of_int (n lsr 1))
+let n_of_int n : coq_N = if n = 0 then N0 else Npos (pos_of_int n)
+let rec int_of_pos = function
+  | Coq_xH -> 1
+  | Coq_xO p -> 2 * int_of_pos p
+  | Coq_xI p -> 2 * int_of_pos p + 1
+let int_of_n = function N0 -> 0 | Npos p -> int_of_pos p
+
+let hex_of (l : coq_N list) =
+  if l = [] then "-" else String.concat "" (List.map (fun b -> Printf.sprintf "%02x" (int_of_n b)) l)
+let bytes_tok (t : string) : coq_N list =
+  let parts = String.split_on_char '+' t in
+  List.concat_map (fun part ->
+    if part = "-" || part = "" then []
+    else if part.[0] = 'r' then begin
+      let rest = String.sub part 1 (String.length part - 1) in
+      match String.split_on_char '.' rest with
+      | [n; b] -> let b = n_of_int (int_of_string ("0x" ^ b)) in List.init (int_of_string n) (fun _ -> b)
+      | _ -> failwith "bad r token"
+    end else
+      List.init (String.length part / 2) (fun i -> n_of_int (int_of_string ("0x" ^ String.sub part (2*i) 2)))
+  ) parts
+let msg_hex m = if m = [] then "<none>" else String.concat ";" (List.map hex_of m)
+let bytes_of_str s = List.init (String.length s) (fun i -> n_of_int (Char.code s.[i]))
+
+let zerr_str = function
+  | Res.EDecode -> "Codec.Decode" | Res.EGreeting -> "Codec.Greeting" | Res.EMechanism -> "Codec.Mechanism"
+  | Res.ECommand -> "Codec.Command" | Res.EIoEof -> "Codec.Io.UnexpectedEof" | Res.EIo _ -> "Codec.Io"
+  | Res.EOther -> "Other" | Res.EUnsupportedVersion -> "UnsupportedVersion"
+  | Res.EPeerIdentity -> "PeerIdentity" | Res.ENoMessage -> "NoMessage"
+  | Res.EReturnToSender -> "ReturnToSender" | Res.EBufferFull -> "BufferFull" | Res.ENotFound -> "Other"
+
+let conn_id (s : string) = n_of_int (Char.code s.[0] - Char.code 'a')
+let conn_name (n : coq_N) = String.make 1 (Char.chr (Char.code 'a' + int_of_n n))
+
+exception Unsupported of string
+
+let split_ops (args : string list) : string list list =
+  (* args: tokens with "/" separators *)
+  let rec go cur acc = function
+    | [] -> List.rev (List.rev cur :: acc)
+    | "/" :: t -> go [] (List.rev cur :: acc) t
+    | x :: t -> go (x :: cur) acc t in
+  go [] [] args
+
+let opt_val pref toks =
+  List.fold_left (fun acc t ->
+    let lp = String.length pref in
+    if String.length t >= lp && String.sub t 0 lp = pref then Some (String.sub t lp (String.length t - lp)) else acc) None toks
+
+let obs_str tag (o : World.obs) : string =
+  match o with
+  | World.BAtt (c, ann) ->
+      Printf.sprintf "att:%s=ok:%s" (conn_name c) (match ann with Some (_ :: _ as b) -> hex_of b | _ -> "auto")
+  | World.BRecv (from, m) ->
+      (match from with
+       | Some k -> Printf.sprintf "%s=ok:@%s;%s" tag (conn_name k) (msg_hex m)
+       | None -> Printf.sprintf "%s=ok:%s" tag (msg_hex m))
+  | World.BRecvErr e -> Printf.sprintf "%s=err:%s" tag (zerr_str e)
+  | World.BRecvPending -> tag ^ "=pending"
+  | World.BSendOk -> "s=ok"
+  | World.BSendErr (e, back) ->
+      (match back with
+       | Some m -> Printf.sprintf "s=err:%s:%s" (zerr_str e) (msg_hex m)
+       | None -> "s=err:" ^ zerr_str e)
+  | World.BSubOk b -> if b then "sub=ok" else "unsub=ok"
+  | World.BWire (c, b) -> Printf.sprintf "wire:%s=%s" (conn_name c) (hex_of b)
+  | World.BDropped (c, r, w) ->
+      let s = (if r then "r" else "") ^ (if w then "w" else "") in
+      Printf.sprintf "dropped:%s=%s" (conn_name c) (if s = "" then "-" else s)
+  | World.BUnsupported -> tag ^ ":unsupported"
+
+let run_sock (args : string list) : string =
+  match split_ops args with
+  | [] -> "empty"
+  | head :: ops ->
+    let t = match Codec.stype_of_name (bytes_of_str (List.hd head)) with Some t -> t | None -> failwith "stype" in
+    let w = ref (World.world0 t) in
+    let out = ref [] in
+    let emit tag obs = List.iter (fun o -> out := obs_str tag o :: !out) obs in
+    let do_op tag o = let (obs, w') = World.step !w o in w := w'; emit tag obs in
+    List.iter (fun toks ->
+      match toks with
+      | [] -> ()
+      | "attach" :: c :: _pt :: opts ->
+          List.iter (fun o ->
+            let ok = List.exists (fun p -> String.length o >= String.length p && String.sub o 0 (String.length p) = p) ["id="] in
+            if not ok then raise (Unsupported ("attach option " ^ o))) opts;
+          let ann = match opt_val "id=" opts with Some h -> Some (bytes_tok h) | None -> None in
+          do_op "att" (World.OAttach (conn_id c, ann))
+      | ["feed"; c; h] -> do_op "" (World.OFeed (conn_id c, bytes_tok h))
+      | ["eof"; c] -> do_op "" (World.OEof (conn_id c))
+      | ["recv"] -> do_op "r" World.ORecv
+      | ["recvp"; k] -> if int_of_string k = 0 then out := "rp=pending" :: !out else do_op "rp" World.ORecv
+      | ["send"; m] ->
+          let fs = String.split_on_char ';' m in
+          (match fs with
+           | f0 :: rest when String.length f0 > 0 && f0.[0] = '@' ->
+               do_op "s" (World.OSendTo (conn_id (String.sub f0 1 1), List.map bytes_tok rest))
+           | _ -> do_op "s" (World.OSend (List.map bytes_tok fs)))
+      | ["sub"; h] -> do_op "sub" (World.OSub (bytes_tok h))
+      | ["unsub"; h] -> do_op "unsub" (World.OUnsub (bytes_tok h))
+      | ["settle"] -> do_op "" World.OSettle
+      | ["wire"; c] -> do_op "" (World.OWire (conn_id c))
+      | ["dropped"; c] -> do_op "" (World.ODropped (conn_id c))
+      | x :: _ -> raise (Unsupported x)) ops;
+    String.concat " " (List.rev !out)
+
+let run_case kind (args : string list) : string =
+  match kind with
+  | "sock" -> (try run_sock args with Unsupported s -> "model-unsupported " ^ s)
+  | "repsplit" ->
+      (match World.rep_split (List.map bytes_tok (String.split_on_char ';' (List.hd args))) with
+       | Res.Ok (e, d) -> Printf.sprintf "ok %s | %s" (msg_hex e) (msg_hex d)
+       | Res.Err e -> "err " ^ zerr_str e
+       | Res.Panic _ -> "panic")
+  | _ -> "unknown-kind " ^ kind
